@@ -55,6 +55,18 @@ CHECKS = {
                  "nesting beyond encoding/json's limit are outside the claim."),
         "technique": "TLA+ JSON grammar/recogniser enumerated by TLC, three-way agreement spec / real codec / encoding/json per rendered case",
     },
+    "C19": {
+        "text": ("StdlibSig.tla holds the documented signature table of text/math/base64/hex/times (parameter kinds, arity range, result kind, error "
+                 "surfacing) and the coercion rules as an acceptance matrix; TLC derives every call obligation (function x arity 0..max+1, function x "
+                 "position x 14 run-time types) with the required outcome class, and evaluates a direct specification of the enum module (all, any, "
+                 "filter, find, find_key, chunk, map, at, each) on every array over a small domain. Each obligation is executed against the real "
+                 "module tables with seeded boundary arguments; values must equal the Go function named by the module documentation, called "
+                 "through an independent reflection-based coercion."),
+        "design_ref": "DESIGN.md 8/C19, 15",
+        "note": ("Trusted: the Go standard library functions named by the documentation; TLC; the harness's transcription of the documentation "
+                 "into the reference table. Clock-dependent functions are checked for arity/types/result kind only."),
+        "technique": "TLC-derived call obligations from a TLA+ signature/coercion table + TLA+ specification of enum, executed against the real module tables",
+    },
     "C01": {
         "text": ("TengoSem.tla/TengoValues.tla are an executable TLA+ reference semantics of the documented language (names, lexical "
                  "environments, cells, heap with slice aliasing, operator/builtin tables). TLC evaluates every generated program, exploring "
